@@ -432,3 +432,67 @@ Proof.
   - reflexivity.
 Qed.
 End JoinLinksExample.
+
+(* ---- the representation of the network's links by the per-structure tables is preserved by Structure.join ---- *)
+Section JoinRepProof.
+Variable K : cfield.
+
+Lemma links_In (cs : list conn) (A B : lst K) x y :
+  In (x, y) (links cs A B) <-> In x (l_pins A) /\ partner cs x = Some y /\ mem y (l_pins B) = true.
+Proof.
+  unfold links. rewrite in_flat_map. split.
+  - intros [x' [HA Hin]]. destruct (partner cs x') as [y'|] eqn:Hp; [|destruct Hin].
+    destruct (mem y' (l_pins B)) eqn:Hm; [|destruct Hin]. destruct Hin as [He|[]]. injection He as -> ->. auto.
+  - intros [HA [Hp Hm]]. exists x. split; [exact HA|]. rewrite Hp, Hm. left. reflexivity.
+Qed.
+
+Theorem join_conn_src_rep (cs : list conn) (A B : lst K) cdA cdB structs :
+  NoDup (map fst (cdA ++ cdB)) ->
+  (forall x y, In (x, y) cdA <-> In x (l_pins A) /\ partner cs x = Some y) ->
+  (forall x y, In (x, y) cdB <-> In x (l_pins B) /\ partner cs x = Some y) ->
+  (forall x y, In (x, y) (cdA ++ cdB) -> idmem (fst x) structs = true) ->
+  (forall x y, In (x, y) (cdA ++ cdB) -> idmem (fst y) structs = mem y (l_pins A ++ l_pins B)) ->
+  (forall x y, In (x, y) cdA -> ~ In y (l_pins A)) ->
+  (forall x y, In (x, y) cdB -> ~ In y (l_pins B)) ->
+  (forall x y, partner cs x = Some y -> partner cs y = Some x) ->
+  forall x y, In (x, y) (join_conn_src cdA cdB structs) <->
+    In x (keep (map fst (links cs A B)) (l_pins A) ++ keep (map snd (links cs A B)) (l_pins B)) /\ partner cs x = Some y.
+Proof.
+  intros Hn RA RB Hsrc Htgt HnA HnB Hsym x y.
+  rewrite (join_conn_src_is_filter cdA cdB structs Hn). rewrite filter_In. unfold crosses, keep. cbv beta.
+  rewrite !in_app_iff, !filter_In.
+  assert (Hxs : forall p, In p (map fst (links cs A B)) <-> exists q, In (p, q) (links cs A B)).
+  { intros p. rewrite in_map_iff. split; [intros [[a b] [He Hin]]; simpl in He; subst; eauto | intros [q Hq]; exists (p, q); auto]. }
+  assert (Hys : forall q, In q (map snd (links cs A B)) <-> exists p, In (p, q) (links cs A B)).
+  { intros q. rewrite in_map_iff. split; [intros [[a b] [He Hin]]; simpl in He; subst; eauto | intros [p Hp]; exists (p, q); auto]. }
+  split.
+  - intros [Hin Hc]. assert (Hin0 : In (x, y) (cdA ++ cdB)) by (apply in_or_app; exact Hin).
+    cbn [fst snd] in Hc. rewrite (Hsrc x y Hin0), (Htgt x y Hin0) in Hc. cbn [andb] in Hc.
+    apply negb_true_iff in Hc. apply mem_nIn in Hc.
+    assert (HyA : ~ In y (l_pins A)) by (intros H; apply Hc; apply in_or_app; left; exact H).
+    assert (HyB : ~ In y (l_pins B)) by (intros H; apply Hc; apply in_or_app; right; exact H).
+    destruct Hin as [Hin|Hin].
+    + apply RA in Hin. destruct Hin as [HxA Hp]. split; [|exact Hp]. left. split; [exact HxA|].
+      apply negb_true_iff. apply mem_nIn. intros Hx. apply Hxs in Hx. destruct Hx as [q Hq].
+      apply links_In in Hq. destruct Hq as [_ [Hp' Hm]]. rewrite Hp in Hp'. injection Hp' as <-.
+      apply mem_In in Hm. exact (HyB Hm).
+    + apply RB in Hin. destruct Hin as [HxB Hp]. split; [|exact Hp]. right. split; [exact HxB|].
+      apply negb_true_iff. apply mem_nIn. intros Hx. apply Hys in Hx. destruct Hx as [p Hq].
+      apply links_In in Hq. destruct Hq as [HpA [Hp' _]]. apply Hsym in Hp'. rewrite Hp in Hp'. injection Hp' as <-.
+      exact (HyA HpA).
+  - intros [[[HxA Hk]|[HxB Hk]] Hp]; apply negb_true_iff in Hk; apply mem_nIn in Hk.
+    + assert (Hin : In (x, y) cdA) by (apply RA; split; assumption).
+      assert (Hin' : In (x, y) (cdA ++ cdB)) by (apply in_or_app; left; exact Hin).
+      split; [left; exact Hin|]. cbn [fst snd]. rewrite (Hsrc x y Hin'), (Htgt x y Hin'). cbn [andb]. apply negb_true_iff. apply mem_nIn.
+      intros Hy. apply in_app_or in Hy. destruct Hy as [Hy|Hy]; [exact (HnA x y Hin Hy)|].
+      apply Hk. apply Hxs. exists y. apply links_In. split; [exact HxA|]. split; [exact Hp|]. apply mem_In. exact Hy.
+    + assert (Hin : In (x, y) cdB) by (apply RB; split; assumption).
+      assert (Hin' : In (x, y) (cdA ++ cdB)) by (apply in_or_app; right; exact Hin).
+      split; [right; exact Hin|]. cbn [fst snd]. rewrite (Hsrc x y Hin'), (Htgt x y Hin'). cbn [andb]. apply negb_true_iff. apply mem_nIn.
+      intros Hy. apply in_app_or in Hy. destruct Hy as [Hy|Hy]; [|exact (HnB x y Hin Hy)].
+      apply Hk. apply Hys. exists y. apply links_In. split; [exact Hy|]. split; [apply Hsym; exact Hp|]. apply mem_In. exact HxB.
+Qed.
+
+End JoinRepProof.
+
+Print Assumptions join_conn_src_rep.
